@@ -24,6 +24,12 @@ let handle = function
   | L [A "add"; a; b] -> res_sexp si_sexp (si_add (si_of a) (si_of b))
   | L [A "sub"; a; b] -> res_sexp si_sexp (si_sub (si_of a) (si_of b))
   | L [A "union"; a; b] -> res_sexp si_sexp (si_union (si_of a) (si_of b))
+  | L [A "ucmp"; A op; a; b] ->
+    let f = (match op with "ULT" -> si_ult | "ULE" -> si_ule | "UGT" -> si_ugt | "UGE" -> si_uge
+      | "SLT" -> si_slt | "SLE" -> si_sle | "SGT" -> si_sgt | "SGE" -> si_sge | _ -> failwith "ucmp") in
+    res_sexp (function TT -> A "TT" | TF -> A "TF" | TM -> A "TM") (f (si_of a) (si_of b))
+  | L [A "sbounds"; a] -> res_sexp (fun l -> L (List.map (fun (x, y) -> L [a_z x; a_z y]) l)) (signed_bounds (si_of a))
+  | L [A "ubounds"; a] -> res_sexp (fun l -> L (List.map (fun (x, y) -> L [a_z x; a_z y]) l)) (unsigned_bounds (si_of a))
   | L [A "zext"; a; n] -> L [A "ok"; si_sexp (si_zext (si_of a) (z_a n))]
   | L [A "neg"; a] -> res_sexp si_sexp (si_neg (si_of a))
   | L [A "dsis_add"; L s; L t] -> res_sexp (fun r -> L (List.map si_sexp r)) (dsis_add (List.map si_of s) (List.map si_of t))
